@@ -939,6 +939,8 @@ fn sx_macro(m: &syn::Macro) -> String {
             }
         }
         "vec" if m.tokens.is_empty() => "(array)".into(),
+        // a code template: its tokens as text (the translator makes it a symbolic value holding the holes' values)
+        "quote" | "parse_quote" => format!("(quote {})", q(&m.tokens.to_string())),
         "format" => {
             // (format "<template>" args..): the template and the argument expressions
             struct FmtArgs(syn::LitStr, Vec<syn::Expr>);
